@@ -213,6 +213,17 @@ class Walker:
         self.cur = None
         self.cur_idle = None
 
+    def slot_reuse_note(self, h):
+        """a source that lives in a slot a removed source left and is not served: the removal was not final for the slot (C06)"""
+        if h not in self.key:
+            return
+        sid = unpack(self.key[h])[0]
+        for x in sorted(self.dead):
+            if x != h and x in self.key and unpack(self.key[x])[0] == sid:
+                self.fail("C06", "slot-reuse-affected", "source %d was inserted into the slot the removed source %d had left, is enabled and ready, and is "
+                          "not called: the finished removal still affects the source that re-uses its slot" % (h, x))
+                return
+
     def check_released(self, where):
         """C06, release clause (theorem C06_released_by_end_of_dispatch): between two top-level operations every removed source
         whose Dispatcher the scenario no longer holds has been dropped"""
@@ -577,6 +588,16 @@ class Walker:
                     RULE_STATS["C15/error-swallowed: dispatches in which a source returned Err"] += 1
                     if ok:
                         self.fail("C15", "error-swallowed", "the event processing of source %d returned an error in this dispatch, but dispatch() returned Ok(())" % er[1])
+                if (not ok and (er is None or er[0] != self.disp_no) and not any(c >= 2 for _, c in bs_seen) and not self.failed_insert
+                        and not self.reg_failed and all(len(u) <= 1 for u in self.fd_users.values())):
+                    # no hook and no source reported an error, no registration ever failed and no fd is shared: nothing the sources did
+                    # can explain a failing dispatch - a handle call made from inside a callback (they all answered Ok) broke the loop
+                    RULE_STATS["C08/dispatch-failed-without-cause: failing dispatches judged"] += 1
+                    self.fail("C08", "dispatch-failed-without-cause", "dispatch() returned Err although no before_sleep hook and no source's event "
+                              "processing reported an error and every handle call made from inside the callbacks answered Ok: the rest of the batch "
+                              "was abandoned because of what a callback legitimately did")
+                elif not ok:
+                    RULE_STATS["C08/dispatch-failed-without-cause: failing dispatches with a cause (not judged)"] += 1
                 self.err_returned = None
                 if self.snapshot is not None:
                     # a reported one-shot / edge sub has used up the arming it had when the dispatch polled, however the dispatch ends
@@ -850,6 +871,7 @@ class Walker:
                     self.fail("C02", "missed-ping", "ping source %d had an unconsumed ping when the dispatch polled but was not called" % h)
                     self.fail("C03", "lost-ping", "a ping() on source %d returned before this dispatch polled, the source is inserted and enabled, "
                               "and the dispatch returned Ok without calling it back" % h)
+                    self.slot_reuse_note(h)
             elif kind == "chan" and sp:
                 n, senders, closed = snap["chan"].get(int(sp[3]), (0, 1, False))
                 if (n > 0 or (senders == 0 and not closed)):
